@@ -131,6 +131,33 @@ fn emit_entries<W: Write>(out: &mut W, r: &mut Rng, next: &mut usize, vals: &[f6
     toks
 }
 
+/// exact determinant of a small integer matrix (fraction-free Bareiss elimination)
+fn int_det(a: &[f64], n: usize) -> i128 {
+    let mut m: Vec<i128> = a.iter().map(|x| *x as i128).collect();
+    let mut sign = 1i128;
+    let mut prev = 1i128;
+    for k in 0..n {
+        if m[k * n + k] == 0 {
+            match (k + 1..n).find(|&rr| m[rr * n + k] != 0) {
+                Some(rr) => {
+                    for c in 0..n {
+                        m.swap(k * n + c, rr * n + c);
+                    }
+                    sign = -sign;
+                }
+                None => return 0,
+            }
+        }
+        for i in k + 1..n {
+            for j in k + 1..n {
+                m[i * n + j] = (m[i * n + j] * m[k * n + k] - m[i * n + k] * m[k * n + j]) / prev;
+            }
+        }
+        prev = m[k * n + k];
+    }
+    sign * m[n * n - 1]
+}
+
 pub fn gen_c13<W: Write>(out: &mut W, thorough: bool, seed: u64) {
     let mut r = Rng::new(seed ^ 0xC13);
     let n_sys = if thorough { 6000 } else { 400 };
@@ -148,7 +175,28 @@ pub fn gen_c13<W: Write>(out: &mut W, thorough: bool, seed: u64) {
                 }
             }
         }
-        if !lsq && n >= 2 {
+        if !lsq && n >= 2 && i % 4 == 3 {
+            // small-integer matrices without a dominant diagonal: elimination itself creates exact zeros in later
+            // pivot positions (rows that agree in their leading columns), so the pivot has to be chosen from the
+            // UPDATED column; kept only if the integer determinant is non-zero
+            loop {
+                for v in a.iter_mut() {
+                    *v = r.range(-2, 2) as f64;
+                }
+                if r.chance(1, 2) {
+                    // two rows equal in the first column(s): the second pivot column of the lower one cancels
+                    let j = r.range(1, n as i64 - 1) as usize;
+                    let m = r.range(1, 2) as f64;
+                    let upto = r.range(1, (n as i64 - 1).max(1)) as usize;
+                    for c in 0..upto {
+                        a[j * n + c] = m * a[c];
+                    }
+                }
+                if int_det(&a, n) != 0 {
+                    break;
+                }
+            }
+        } else if !lsq && n >= 2 {
             match r.below(5) {
                 0 => {
                     // zero in the first pivot position: forces a swap in the first column
